@@ -16,9 +16,16 @@ RULE = ("Kruskal tensors of order 1..4 (mode sizes 1..4, singleton modes) and ra
         "either sign and zero, integer factor entries, zero columns, columns with rational and with irrational "
         "2-norm; normalize with every weight_factor (None / each mode / 'all'), sort flag, norm 1 / 2 / inf and "
         "single-mode form; arrange with every component permutation for R<=4 (thorough) and the sort/absorb forms; "
-        "fixsigns alone and against references with every sign pattern of the modes; redistribute into every mode; "
+        "fixsigns alone and against references with every sign pattern of the modes, every pattern of exact sign "
+        "scores out of {0, +-1, +-24/25, +-3/5, +-4/5, zero column on either side} (ties in the magnitudes, both sides "
+        "of the one-more / one-fewer switch, exact floating point for the {0, +-1} patterns), references of another shape "
+        "or with more components, each followed by a second call (alignment normal form, parity, idempotence); "
+        "normalize() twice for each norm; arrange by p then q against arrange by p[q]; redistribute into every mode; "
         "extract with valid subsets, duplicates and invalid index lists; tovec/from_vector/update/tolist; + - neg * ; "
-        "score against permuted / perturbed copies; malformed arguments for each operation; sequences of 3..8 calls on live "
+        "score against permuted / perturbed copies, exact copies (tied congruences), unit-vector / 3-4-5 / zero columns "
+        "and zero weights for every rank pair RB<=RA<=4 and orders 2..4, greedy=False, thresholds outside [0,1], other "
+        "shapes (returns exactly on the valid requests; score = mean of the matched congruences; greedy matching); "
+        "malformed arguments for each operation; sequences of 3..8 calls on live "
         "objects (tovec / tolist / extract / copy / from_vector / update from shared vectors / + / - / unary - + / scalar * on "
         "either side / permute / symmetrize / constructor followed by in-place normalize / arrange / fixsigns / redistribute) "
         "with denotation, full(), bitwise frame and round-trip checks on every live object after every step; every "
@@ -826,10 +833,56 @@ class Fixsigns(KFamily):
         return out
 
 
+ATOL = Fraction(1, 10 ** 9)
+
+
+def ref_scores(fs, ofs, r):
+    """sign scores of component r: <A_n[:, r], B_n[:, r]> for every mode (exact on Fractions)"""
+    return [sum(a * b for a, b in zip(col(fs[n], r), col(ofs[n], r))) for n in range(len(fs))]
+
+
+def alignment_defect(scores, tol=ATOL):
+    """the normal form of C08_fixsigns_ref_normal_form on one component (None when it holds): at most one
+    negatively correlated mode, and then no other mode with a score of smaller magnitude"""
+    neg = [n for n, x in enumerate(scores) if x < -tol]
+    if len(neg) > 1:
+        return f"{len(neg)} modes are negatively correlated with the reference"
+    if neg:
+        n = neg[0]
+        for m, x in enumerate(scores):
+            if m != n and x < -scores[n] - tol:
+                return (f"mode {n} is left negatively correlated (score {float(scores[n]):.6g}) although mode {m} "
+                        f"has a score of smaller magnitude ({float(x):.6g})")
+    return None
+
+
+def even_flip_gain(scores, tol=ATOL):
+    """C08_fixsigns_ref_optimal on one component (None when it holds): no even set of further flips raises the sum
+    of the sign scores, i.e. the scores of every even-sized set of modes add up to a non-negative number"""
+    N = len(scores)
+    for k in range(2, N + 1, 2):
+        for F in itertools.combinations(range(N), k):
+            if sum(scores[n] for n in F) < -tol:
+                return f"flipping modes {list(F)} as well would raise the total correlation with the reference"
+    return None
+
+
+def unit_vec(n, i, s=1):
+    v = [0] * n
+    v[i] = s
+    return v
+
+
 class FixsignsRef(KFamily):
     name = "fixsigns_ref"
     kt_keys = ("K", "other")
-    theorems = ("C08_fixsigns_ref_denote", "C08_fixsigns_ref_pinned_counterexample")
+    theorems = ("C08_fixsigns_ref_denote", "C08_fixsigns_ref_pinned_counterexample", "C08_fixsigns_ref_normal_form",
+                "C08_fixsigns_ref_optimal", "C08_fixsigns_ref_even", "C08_fixsigns_ref_idem", "C08_fixsigns_ref_accepts",
+                "C08_fixsigns_ref_rejects")
+
+    @staticmethod
+    def _cols_to_factors(cols_by_mode, R):
+        return [[[cols[r][i] for r in range(R)] for i in range(len(cols[0]))] for cols in cols_by_mode]
 
     def gen(self, rng, tier):
         out = []
@@ -855,11 +908,78 @@ class FixsignsRef(KFamily):
                                     if rng.random() < 0.3:
                                         row[r] += rng.choice([-1, 1])
                     out.append({"K": K, "other": ref})
+        # exact scores: unit-vector and 3-4-5 columns normalise exactly, so the sign scores are exactly
+        # 0, +-1, +-24/25, +-3/5, +-4/5 in the implementation as well: every sign pattern (zero included)
+        # with TIES in the magnitudes, on both sides of the "one more / one fewer" switch
+        exact_pairs = {  # score -> (column of the receiver, column of the reference), length 2
+            0: ([1, 0], [0, 1]), 1: ([1, 0], [1, 0]), -1: ([-1, 0], [1, 0]),
+            "z": ([0, 0], [1, 0]), "zr": ([1, 0], [0, 0]),          # a zero column on either side: score 0
+            "24/25": ([3, 4], [4, 3]), "-24/25": ([-3, -4], [4, 3]),
+            "3/5": ([3, 4], [1, 0]), "-3/5": ([-3, -4], [1, 0]), "4/5": ([3, 4], [0, 1]), "-4/5": ([3, 4], [0, -1]),
+        }
+        keys = list(exact_pairs)
+        for N in (2, 3, 4):
+            pats = list(itertools.product(keys, repeat=N))
+            take = {2: 60, 3: 60, 4: 40}[N] if tier == "quick" else {2: len(pats), 3: 700, 4: 700}[N]
+            if len(pats) > take:
+                pats = rng.sample(pats, take)
+            for pat in pats:
+                R = rng.choice([1, 1, 2, 3, 4])
+                RB = rng.randint(1, R)
+                kc = [[list(exact_pairs[pat[n]][0])] for n in range(N)]
+                oc = [[list(exact_pairs[pat[n]][1])] for n in range(N)]
+                for r in range(1, R):
+                    pr = [rng.choice(keys) for _ in range(N)]
+                    for n in range(N):
+                        kc[n].append(list(exact_pairs[pr[n]][0]))
+                        if r < RB:
+                            oc[n].append(list(exact_pairs[pr[n]][1]))
+                K = {"weights": [rng.choice([1, 2, -3, 0]) for _ in range(R)], "factors": self._cols_to_factors(kc, R)}
+                O = {"weights": [rng.choice([1, 2, -2]) for _ in range(RB)], "factors": self._cols_to_factors(oc, RB)}
+                out.append({"K": K, "other": O})
+        # the same with scores in {0, +-1} only (unit-vector and zero columns, entries +-1 / +-2): floating point
+        # is exact from the first normalisation to the last flip, so ties are exact ties in the implementation
+        # and idempotence / the parity claim are checked without any tolerance
+        ekeys = [0, 1, -1, "z", "zr"]
+        for N in (1, 2, 3, 4):
+            pats = list(itertools.product(ekeys, repeat=N))
+            take = 40 if tier == "quick" else 400
+            if len(pats) > take:
+                pats = rng.sample(pats, take)
+            for pat in pats:
+                R = rng.choice([1, 2, 3, 4])
+                RB = rng.randint(1, R)
+                kc, oc = [[] for _ in range(N)], [[] for _ in range(N)]
+                for r in range(R):
+                    pr = pat if r == 0 else [rng.choice(ekeys) for _ in range(N)]
+                    for n in range(N):
+                        a, b = exact_pairs[pr[n]]
+                        sa, sb = rng.choice([1, 2]), rng.choice([1, 2, 4])
+                        if rng.random() < 0.5:   # swap the two coordinates: same score
+                            a, b = a[::-1], b[::-1]
+                        kc[n].append([sa * x for x in a])
+                        if r < RB:
+                            oc[n].append([sb * x for x in b])
+                K = {"weights": [rng.choice([1, 2, -4, 0]) for _ in range(R)], "factors": self._cols_to_factors(kc, R)}
+                O = {"weights": [rng.choice([1, 2, -2]) for _ in range(RB)], "factors": self._cols_to_factors(oc, RB)}
+                out.append({"K": K, "other": O})
         for _ in range(20 if tier == "quick" else 1200):
             s = gen.shape(rng, 1, 4, 3)
             RA = rng.randint(1, 4)
             RB = rng.randint(1, RA) if rng.random() < 0.9 else RA + 1
             out.append({"K": gen_kt(rng, s, RA, zero_cols=0.05), "other": gen_kt(rng, s, RB, zero_cols=0.05)})
+        # references that must be refused: another shape (one extent, one mode more, one mode fewer), more components
+        for _ in range(6 if tier == "quick" else 120):
+            s = gen.shape(rng, 1, 4, 3)
+            RA = rng.randint(1, 4)
+            K = gen_kt(rng, s, RA)
+            s2 = list(s)
+            s2[rng.randrange(len(s))] += 1
+            out.append({"K": K, "other": gen_kt(rng, s2, rng.randint(1, RA))})
+            out.append({"K": K, "other": gen_kt(rng, s + [2], rng.randint(1, RA))})
+            if len(s) > 1:
+                out.append({"K": K, "other": gen_kt(rng, s[:-1], rng.randint(1, RA))})
+            out.append({"K": K, "other": gen_kt(rng, s, RA + rng.randint(1, 2))})
         # the witnesses of the repaired defect
         out.append({"K": {"weights": [2], "factors": [[[-1], [0]], [[3], [4]], [[1], [0]]]},
                     "other": {"weights": [1], "factors": [[[1], [0]]] * 3}})
@@ -874,8 +994,12 @@ class FixsignsRef(KFamily):
             K, O = mk(c["K"]), mk(c["other"])
 
             def f(K=K, O=O):
+                o0 = kj(O)
                 r = K.fixsigns(O)
-                return {"K": kj(K), "same": r is K}
+                first = kj(K)
+                # a second call with the same reference, on the object itself
+                K.fixsigns(O)
+                return {"K": first, "same": r is K, "again": kj(K), "ref_untouched": kj(O) == o0}
             impls.append(call(f))
             reqs.append({"op": "k_fixsigns_ref", "K": c["K"], "other": c["other"]})
         models = drive(reqs)
@@ -888,7 +1012,24 @@ class FixsignsRef(KFamily):
             tags = [f"N{N}", f"RA{RA}", f"RB{RB}"] + sorted({"oddneg" if k % 2 else "evenneg" for k in negs})
             if any(k == N and N % 2 for k in negs):
                 tags.append("allneg-odd")
+            if any(s == 0 for row in scores for s in row):
+                tags.append("zeroscore")
+            if any(len({abs(s) for s in row}) < len(row) for row in scores):
+                tags.append("exact-tie")
+            for row in scores:   # which way the odd case goes
+                srt = sorted(row)
+                k = sum(1 for s in srt if s < 0)
+                if k % 2 == 1:
+                    tags.append("one-more" if k < N and srt[k] < -srt[k - 1] else "one-fewer")
+            tags = sorted(set(tags))
             fragile = any(near_ties([abs(s) for s in row]) or any(abs(s) < 1e-9 for s in row) for row in scores)
+            # every column is a multiple +-1, +-2, +-4 of a unit vector (or zero): the implementation's arithmetic
+            # is exact, ties are exact ties, and the theorems apply to it for whatever order argsort picks
+            exact = all(sum(1 for x in col(f, rr) if x != 0) <= 1 and all(x in (0, 1, -1, 2, -2, 4, -4) for x in col(f, rr))
+                        for T in (K, O) for f in T["factors"] for rr in range(len(T["weights"])))
+            exact = exact and all(w in (0, 1, -1, 2, -2, 4, -4) for T in (K, O) for w in T["weights"])
+            if exact:
+                tags.append("exact-arith")
             ic = strip_exc(impl)
             mr = m["res"]
             valid = RB <= RA and shape_of(K) == shape_of(O)
@@ -896,7 +1037,10 @@ class FixsignsRef(KFamily):
                 tags.append("reject")
                 if valid:
                     out.append(Verdict("violation", "fixsigns(reference) refused a valid request", impl, m, None, tags, False))
-                elif ("reject" in ic) != ("reject" in mr):
+                elif "reject" not in ic:
+                    out.append(Verdict("violation", "fixsigns(reference) accepted a reference of another shape or "
+                                       "with more components", impl, m, None, tags, False))
+                elif "reject" not in mr:
                     out.append(Verdict("corr", "fixsigns(reference): acceptance differs from the model", impl, m, None, tags, False))
                 else:
                     out.append(Verdict("ok", "", impl, m, None, tags, False))
@@ -904,19 +1048,52 @@ class FixsignsRef(KFamily):
             r = ic["ok"]["K"]
             d0 = denote(K["weights"], K["factors"])
             bad = None
-            if not vec_close(denote_j(r), d0):
+            if not ic["ok"]["ref_untouched"]:
+                bad = "fixsigns(reference) modified the reference"
+            elif not vec_close(denote_j(r), d0):
                 bad = "fixsigns(reference) changed the tensor"
             else:
                 bad = check_normal_form(c, r, "2", None, None, False, N)
-            if bad is None and not fragile:
-                # alignment: after the call at most one mode per component is negatively correlated
-                w, fs = k_frac(r)
-                ow, ofs = k_frac(m["B"]["ok"])
-                for rr in range(min(RA, RB)):
-                    left = sum(1 for n in range(N) if sum(a * b for a, b in zip(col(fs[n], rr), col(ofs[n], rr))) < -1e-9)
-                    if left > 1:
-                        bad = f"component {rr} still has {left} negatively correlated modes"
+            w, fs = k_frac(r)
+            ow, ofs = k_frac(m["B"]["ok"])
+            if bad is None:
+                # the alignment normal form on the implementation's result (tolerance 1e-9 on the scores, so
+                # ties and scores that are zero up to rounding are checked too)
+                for rr in range(RB):
+                    after = ref_scores(fs, ofs, rr)
+                    d = alignment_defect(after) or even_flip_gain(after)
+                    if d is None and negs[rr] % 2 == 0 and (exact or not fragile) and any(x < -ATOL for x in after):
+                        d = "an even number of modes was negatively correlated, yet one is left"
+                    if d is not None:
+                        bad = f"component {rr}: {d}"
                         break
+            if bad is None:
+                # idempotence on the implementation: a second call changes nothing (beyond rounding in the
+                # renormalisation; the sign pattern must stay when no decision is within rounding of a tie)
+                again = ic["ok"]["again"]
+                if not vec_close(denote_j(again), d0):
+                    bad = "a second fixsigns(reference) changed the tensor"
+                elif exact and not deep_eq(again, r):
+                    bad = "a second fixsigns(reference) changed the stored tensor (not idempotent; exact arithmetic)"
+                elif not fragile and not close(again, r, 1e-12):
+                    bad = "a second fixsigns(reference) changed the stored tensor (not idempotent)"
+                else:
+                    w2, fs2 = k_frac(again)
+                    for rr in range(RB):
+                        d = alignment_defect(ref_scores(fs2, ofs, rr))
+                        if d is not None:
+                            bad = f"after a second call, component {rr}: {d}"
+                            break
+            if bad is None:
+                # the model's own result: aligned (the theorem, executed) and a fixed point of a second call
+                if not all(m["aligned"]) or len(m["aligned"]) != RB:
+                    out.append(Verdict("corr", "the model's result is not in the alignment normal form", impl, m, None, tags))
+                    continue
+                # (the driver's square roots are exact only on rational squares: where a decision hangs on a tie
+                # of irrational scores the 2^-80 perturbation of the renormalisation may tip it)
+                if "ok" not in m["res2"] or ((exact or not fragile) and not close(m["res2"]["ok"], mr["ok"], 1e-15)):
+                    out.append(Verdict("corr", "the model's second call changes its result", impl, m, None, tags))
+                    continue
             if bad is None and not close(r, mr["ok"]):
                 if fragile:
                     tags.append("tie")
@@ -992,7 +1169,30 @@ class Tolist(KFamily):
 class Score(KFamily):
     name = "score"
     kt_keys = ("K", "other")
-    theorems = ("C08_score_perm",)
+    theorems = ("C08_score_perm", "C08_score_returns", "C08_score_greedy", "C08_score_rejects",
+                "C08_score_nongreedy_rejects")
+
+    @staticmethod
+    def _exact_kt(rng, shape, R, wpool):
+        """columns that normalise exactly in floating point (unit vectors, 3-4-5 pairs, zero columns), so that
+        congruences of 0, 1, 24/25, ... and exact TIES between them occur in the implementation too"""
+        cols_by_mode = []
+        for n in shape:
+            cols = []
+            for _ in range(R):
+                u = rng.random()
+                if u < 0.12:
+                    v = [0] * n
+                elif u < 0.6 or n < 2:
+                    v = unit_vec(n, rng.randrange(n), rng.choice([1, -1, 2]))
+                else:
+                    v = [0] * n
+                    i, j = rng.sample(range(n), 2)
+                    v[i], v[j] = rng.choice([3, -3]), rng.choice([4, -4])
+                cols.append(v)
+            cols_by_mode.append(cols)
+        return {"weights": [rng.choice(wpool) for _ in range(R)],
+                "factors": [[[cols[r][i] for r in range(R)] for i in range(len(cols[0]))] for cols in cols_by_mode]}
 
     def gen(self, rng, tier):
         out = []
@@ -1013,9 +1213,42 @@ class Score(KFamily):
             else:
                 O = gen_kt(rng, s, RA + 1)
             out.append({"K": K, "other": O, "wp": rng.random() < 0.7,
-                        "thr": rng.choice([None, None, "1/2", 1, 0, "3/2"])})
+                        "thr": rng.choice([None, None, "1/2", 1, 0, "3/2"]), "greedy": True})
+        # exact congruences with ties, zero columns and zero weights; every rank pair RB <= RA <= 4, orders 2..4
+        pairs = [(ra, rb) for ra in range(1, 5) for rb in range(1, ra + 1)]
+        for _ in range(5 if tier == "quick" else 60):
+            for (RA, RB) in pairs:
+                N = rng.choice([2, 3, 4])
+                s = [rng.choice([2, 3]) for _ in range(N)] if rng.random() < 0.7 else [2] * N
+                K = self._exact_kt(rng, s, RA, [1, 2, 2, 3, 0, -2])
+                if rng.random() < 0.5:
+                    sel = rng.sample(range(RA), RB)   # the reference repeats components of the receiver exactly
+                    O = {"weights": [K["weights"][i] for i in sel],
+                         "factors": [[[row[i] for i in sel] for row in f] for f in K["factors"]]}
+                else:
+                    O = self._exact_kt(rng, s, RB, [1, 2, 0, -2])
+                out.append({"K": K, "other": O, "wp": rng.random() < 0.6,
+                            "thr": rng.choice([None, "1/2", 1, 0]), "greedy": True})
+        # all components identical: every entry of C ties
+        K = {"weights": [2, 2, 2], "factors": [[[1, 1, 1], [0, 0, 0]], [[0, 0, 0], [1, 1, 1]]]}
+        out.append({"K": K, "other": {"weights": [2, 2], "factors": [[[1, 1], [0, 0]], [[0, 0], [1, 1]]]},
+                    "wp": True, "thr": None, "greedy": True})
+        # a zero tensor against a zero reference: every congruence is zero
+        Z = {"weights": [0, 0], "factors": [[[0, 0], [0, 0]], [[0, 0], [0, 0], [0, 0]]]}
+        out.append({"K": Z, "other": Z, "wp": True, "thr": None, "greedy": True})
+        out.append({"K": Z, "other": Z, "wp": False, "thr": 0, "greedy": True})
+        # refused requests: another shape, greedy=False (not implemented), threshold outside [0, 1]
         K = gen_kt(rng, [2, 3])
-        out.append({"K": K, "other": gen_kt(rng, [2, 4]), "wp": True, "thr": None})
+        out.append({"K": K, "other": gen_kt(rng, [2, 4]), "wp": True, "thr": None, "greedy": True})
+        out.append({"K": K, "other": gen_kt(rng, [2, 3, 2]), "wp": True, "thr": None, "greedy": True})
+        for _ in range(3 if tier == "quick" else 40):
+            s = gen.shape(rng, 1, 4, 3)
+            RA = rng.randint(1, 4)
+            K = gen_kt(rng, s, RA)
+            out.append({"K": K, "other": gen_kt(rng, s, rng.randint(1, RA)), "wp": rng.random() < 0.5,
+                        "thr": rng.choice([None, "1/2"]), "greedy": False})
+            out.append({"K": K, "other": gen_kt(rng, s, rng.randint(1, RA)), "wp": True,
+                        "thr": rng.choice(["-1/10", "11/10", 2, -1]), "greedy": True})
         return out
 
     def evaluate(self, cases):
@@ -1027,43 +1260,73 @@ class Score(KFamily):
                 kw = {"weight_penalty": c["wp"]}
                 if c["thr"] is not None:
                     kw["threshold"] = float(Fraction(c["thr"]))
+                if not c.get("greedy", True):
+                    kw["greedy"] = False
+                k0, o0 = kj(K), kj(O)
                 sc, A, flag, perm = K.score(O, **kw)
-                return {"score": jval(float(sc)), "A": kj(A), "flag": bool(flag), "perm": jval(perm), "K": kj(K)}
+                return {"score": jval(float(sc)), "A": kj(A), "flag": bool(flag), "perm": jval(perm), "K": kj(K),
+                        "untouched": kj(K) == k0 and kj(O) == o0}
             impls.append(call(f))
-            reqs.append({"op": "k_score", "K": c["K"], "other": c["other"], "wp": c["wp"], "thr": c["thr"]})
+            reqs.append({"op": "k_score", "K": c["K"], "other": c["other"], "wp": c["wp"], "thr": c["thr"],
+                         "greedy": c.get("greedy", True)})
         models = drive(reqs)
         out = []
         for c, impl, m in zip(cases, impls, models):
             K, O = c["K"], c["other"]
             N, RA, RB = len(K["factors"]), len(K["weights"]), len(O["weights"])
+            greedy = c.get("greedy", True)
             tags = [f"N{N}", f"RA{RA}", f"RB{RB}", "penalty" if c["wp"] else "nopenalty"]
+            if not greedy:
+                tags.append("nongreedy")
             ic = strip_exc(impl)
             mr = m["res"]
             thr = None if c["thr"] is None else Fraction(c["thr"])
-            valid = shape_of(K) == shape_of(O) and RB <= RA and (thr is None or 0 <= thr <= 1)
+            # C08_score_returns / C08_score_rejects / C08_score_nongreedy_rejects: exactly these requests return
+            valid = greedy and shape_of(K) == shape_of(O) and 1 <= RB <= RA and (thr is None or 0 <= thr <= 1)
             if "reject" in ic or "reject" in mr:
                 tags.append("reject")
                 if valid:
-                    out.append(Verdict("violation", "score refused a valid request", impl, m, None, tags, False))
-                elif ("reject" in ic) != ("reject" in mr):
+                    out.append(Verdict("violation", "score did not return on a valid request", impl, m, None, tags, False))
+                elif "reject" not in ic:
                     out.append(Verdict("violation", "score accepted an invalid request", impl, m, None, tags, False))
+                elif "reject" not in mr:
+                    out.append(Verdict("corr", "score: acceptance differs from the model", impl, m, None, tags, False))
                 else:
                     out.append(Verdict("ok", "", impl, m, None, tags, False))
                 continue
             r = ic["ok"]
             d0 = denote(K["weights"], K["factors"])
+            C = [[fr(x) for x in row] for row in m["C"]]
+            thr_eff = thr if thr is not None else Fraction(99, 100) ** N
             bad = None
-            if sorted(r["perm"]) != list(range(RA)):
+            if not r["untouched"]:
+                bad = "score modified the receiver or the reference"
+            elif sorted(r["perm"]) != list(range(RA)):
                 bad = "score returned a matching that is not a permutation of the components"
             elif not vec_close(denote_j(r["A"]), d0):
                 bad = "the tensor returned by score does not denote the receiver"
             else:
                 bad = check_normal_form(c, r["A"], "2", None, None, False, N)
             if bad is None:
-                fragile = self._fragile(m["C"], RA, RB)
+                # the reported score is the mean of the matched (penalised) congruences
+                mean = sum(C[r["perm"][j]][j] for j in range(RB)) / RB
+                if abs(fr(r["score"]) - mean) > Fraction(1, 10 ** 11) * max(1, abs(mean)):
+                    bad = (f"the reported score {float(fr(r['score'])):.12g} is not the mean of the matched "
+                           f"congruences {float(mean):.12g}")
+                elif abs(mean - thr_eff) > ATOL and r["flag"] != (mean <= thr_eff):
+                    bad = "the flag is not (score <= threshold)"
+                else:
+                    bad = self._not_greedy(C, r["perm"], RA, RB)
+            if bad is None:
+                # the returned tensor is the normalised receiver with its components in the matched order
                 mo = mr["ok"]
+                w, fs = k_frac(r["A"])
+                fragile = self._fragile(m["C"], RA, RB)
+                if any(x == 0 for row in C for x in row):
+                    tags.append("zero-congruence")
+                if fragile:
+                    tags.append("tied-congruences")
                 same = (r["perm"] == mo["perm"] and close(r["A"], mo["A"]) and num_close(r["score"], mo["score"], 1e-11))
-                thr_eff = thr if thr is not None else Fraction(99, 100) ** N
                 near_thr = abs(fr(mo["score"]) - thr_eff) < Fraction(1, 10 ** 9)
                 if same and not near_thr and r["flag"] != mo["flag"]:
                     same = False
@@ -1075,6 +1338,23 @@ class Score(KFamily):
                         continue
             out.append(Verdict("violation" if bad else "ok", bad or "", impl, m, None, tags, any(x != 0 for x in d0)))
         return out
+
+    @staticmethod
+    def _not_greedy(C, perm, RA, RB, tol=ATOL):
+        """C08_score_greedy on the implementation's matching: some order of the matched pairs takes a largest
+        remaining entry each time (values within tol count as tied)"""
+        rows, cols = set(range(RA)), set(range(RB))
+        pairs = {(perm[j], j) for j in range(RB)}
+        for _ in range(RB):
+            top = max(C[a][b] for a in rows for b in cols)
+            pick = next(((a, b) for (a, b) in sorted(pairs) if C[a][b] >= top - tol), None)
+            if pick is None:
+                return (f"the matching is not greedy: no remaining matched pair reaches the largest remaining "
+                        f"congruence {float(top):.6g}")
+            pairs.discard(pick)
+            rows.discard(pick[0])
+            cols.discard(pick[1])
+        return None
 
     @staticmethod
     def _fragile(C, RA, RB):
@@ -1093,6 +1373,144 @@ class Score(KFamily):
             for a in range(RA):
                 C[a][j] = -10.0
         return False
+
+
+# ----------------------------------------------------------------------------
+# 5b. idempotence and composition
+# ----------------------------------------------------------------------------
+class NormalizeIdem(KFamily):
+    """normalize() twice = once (C08_normalize_idem), on the implementation (up to rounding) and on the model"""
+    name = "normalize_idem"
+    theorems = ("C08_normalize_idem", "C08_normalize_fixed_point")
+
+    def gen(self, rng, tier):
+        kts = [gen_kt(rng, s) for s in FIXED_SHAPES]
+        kts += [gen_kt(rng, zero_cols=rng.choice([0.0, 0.12, 0.4])) for _ in range(20 if tier == "quick" else 500)]
+        kts.append({"weights": [0, -2], "factors": [[[0, 3], [0, 4]], [[1, 0], [2, 0]]]})
+        return [{"K": K, "nt": nt} for K in kts for nt in ("1", "2", "inf")]
+
+    def evaluate(self, cases):
+        impls, reqs = [], []
+        for c in cases:
+            K = mk(c["K"])
+
+            def f(K=K, c=c):
+                ntv = {"1": 1, "2": 2, "inf": np.inf}[c["nt"]]
+                K.normalize(normtype=ntv)
+                first = kj(K)
+                K.normalize(normtype=ntv)
+                return {"first": first, "second": kj(K)}
+            impls.append(call(f))
+            reqs.append({"op": "k_normalize_twice", "K": c["K"], "nt": c["nt"]})
+        models = drive(reqs)
+        out = []
+        for c, impl, m in zip(cases, impls, models):
+            K = c["K"]
+            N, R = len(K["factors"]), len(K["weights"])
+            tags = [f"N{N}", f"R{R}", f"nt{c['nt']}"]
+            if any(all(x == 0 for x in col(f, rr)) for f in K["factors"] for rr in range(R)):
+                tags.append("zerocol")
+            if any(w < 0 for w in K["weights"]):
+                tags.append("negw")
+            if any(w == 0 for w in K["weights"]):
+                tags.append("zerow")
+            ic = strip_exc(impl)
+            if "ok" not in ic:
+                out.append(Verdict("violation", "normalize() refused a valid request", impl, m, None, tags, False))
+                continue
+            a, b = ic["ok"]["first"], ic["ok"]["second"]
+            d0 = denote(K["weights"], K["factors"])
+            bad = None
+            if not vec_close(denote_j(b), d0):
+                bad = "normalising twice changed the tensor"
+            elif not close(b, a, 1e-12):
+                bad = "a second normalize() changed the stored tensor (not idempotent)"
+            else:
+                bad = check_normal_form(c, b, c["nt"], None, None, False, N)
+            if bad is None:
+                mf, ms = m["first"], m["second"]
+                exact = c["nt"] in ("1", "inf")
+                if "ok" not in mf or "ok" not in ms or not (deep_eq(ms["ok"], mf["ok"]) if exact else close(ms["ok"], mf["ok"], 1e-15)):
+                    out.append(Verdict("corr", "the model's second normalize() changes its result", impl, m, None, tags))
+                    continue
+                if not close(a, mf["ok"]):
+                    out.append(Verdict("corr", "normalize differs from the model", impl, m, None, tags))
+                    continue
+            out.append(Verdict("violation" if bad else "ok", bad or "", impl, m, None, tags, any(x != 0 for x in d0)))
+        return out
+
+
+class ArrangeCompose(KFamily):
+    """arrange(permutation=p) then arrange(permutation=q) = arrange(permutation=p[q]) (C08_arrange_perm_compose)"""
+    name = "arrange_compose"
+    theorems = ("C08_arrange_perm_compose",)
+
+    def shrink(self, case):
+        R = len(case["K"]["weights"])
+        for k2 in shrink_kt(case["K"]):
+            if len(k2["weights"]) == R:     # p and q are permutations of the R components
+                yield dict(case, K=k2)
+
+    def gen(self, rng, tier):
+        out = []
+        kts = [gen_kt(rng, s) for s in FIXED_SHAPES] + [gen_kt(rng) for _ in range(10 if tier == "quick" else 200)]
+        kts.append(gen_kt(rng, [2, 3], 4, distinct_weights=True))
+        kts.append(gen_kt(rng, [3, 2, 2], 3, distinct_weights=True))
+        for K in kts:
+            R = len(K["weights"])
+            perms = list(itertools.permutations(range(R)))
+            pq = [(p, q) for p in perms for q in perms]
+            k = 6 if tier == "quick" else 40
+            if len(pq) > k:
+                pq = rng.sample(pq, k)
+            for p, q in pq:
+                out.append({"K": K, "p": list(p), "q": list(q), "as": rng.choice(["list", "tuple", "array"])})
+        return out
+
+    def evaluate(self, cases):
+        impls, reqs = [], []
+        for c in cases:
+            def f(c=c):
+                K1, K2 = mk(c["K"]), mk(c["K"])
+                K1.arrange(permutation=Algebra._seq(c["p"], c["as"]))
+                first = kj(K1)
+                K1.arrange(permutation=Algebra._seq(c["q"], c["as"]))
+                pq = [c["p"][k] for k in c["q"]]
+                K2.arrange(permutation=Algebra._seq(pq, c["as"]))
+                return {"first": first, "second": kj(K1), "direct": kj(K2), "pq": pq}
+            impls.append(call(f))
+            reqs.append({"op": "k_arrange_compose", "K": c["K"], "p": c["p"], "q": c["q"]})
+        models = drive(reqs)
+        out = []
+        for c, impl, m in zip(cases, impls, models):
+            K = c["K"]
+            N, R = len(K["factors"]), len(K["weights"])
+            tags = [f"N{N}", f"R{R}", c["as"], "involution" if [c["p"][k] for k in c["p"]] == list(range(R)) else "cycle"]
+            ic = strip_exc(impl)
+            if "ok" not in ic:
+                out.append(Verdict("violation", "arrange refused a permutation of the components", impl, m, None, tags, False))
+                continue
+            r = ic["ok"]
+            d0 = denote(K["weights"], K["factors"])
+            pq = r["pq"]
+            w0, f0 = k_frac({"weights": K["weights"], "factors": K["factors"]})
+            spec = {"weights": [w0[k] for k in pq], "factors": [[[row[k] for k in pq] for row in f] for f in f0]}
+            bad = None
+            w2, fs2 = k_frac(r["second"])
+            if (w2, fs2) != (spec["weights"], spec["factors"]):
+                bad = "arranging by p and then by q does not put component p[q[k]] at position k"
+            elif not deep_eq(r["second"], r["direct"]):
+                bad = "arranging by p and then by q differs from arranging by the composition p[q]"
+            elif denote_j(r["second"]) != d0:
+                bad = "arranging twice changed the tensor"
+            if bad is None:
+                ok = all("ok" in m[k] for k in ("first", "second", "direct")) and m["pq"] == pq
+                if not (ok and deep_eq(m["second"]["ok"], m["direct"]["ok"]) and deep_eq(r["second"], m["second"]["ok"])
+                        and deep_eq(r["first"], m["first"]["ok"])):
+                    out.append(Verdict("corr", "arrange (composition) differs from the model", impl, m, None, tags))
+                    continue
+            out.append(Verdict("violation" if bad else "ok", bad or "", impl, m, None, tags, any(x != 0 for x in d0)))
+        return out
 
 
 # ----------------------------------------------------------------------------
@@ -1605,4 +2023,5 @@ class Sequences(Family):
 
 
 def families():
-    return [Algebra(), Normalize(), Arrange(), Fixsigns(), FixsignsRef(), Tolist(), Score(), Sequences()]
+    return [Algebra(), Normalize(), NormalizeIdem(), Arrange(), ArrangeCompose(), Fixsigns(), FixsignsRef(), Tolist(),
+            Score(), Sequences()]
